@@ -100,6 +100,12 @@ func startWorld(c *explore.Ctx, futureGenesis bool, daBlock time.Duration, honou
 	w.envA = world.NewEnv()
 	w.envF = &world.Env{DA: w.envA.DA, Exec: world.NewExec(), Seq: &world.Seq{}}
 	w.envA.Exec.HonourCancel, w.envF.Exec.HonourCancel = honourCancel, honourCancel
+	if honourCancel {
+		// ... and, from the stop request on, does not answer calls whose context is still live (a hung remote engine):
+		// a loop that calls it with a context detached from the stop request never returns
+		hang := func() bool { return w.stopped }
+		w.envA.Exec.Hang, w.envF.Exec.Hang = hang, hang
+	}
 	hs := &world.P2PStore[*types.SignedHeader]{Gate: w.sched.Gate}
 	ds := &world.P2PStore[*types.Data]{Gate: w.sched.Gate}
 	// sequencing layer double: hands out what the reaper submitted, else an empty batch
@@ -518,7 +524,7 @@ func TestCheck(t *testing.T) {
 	r.Assume = []string{
 		"virtual time; scheduling granularity = environment calls (datastore, DA, executor, sequencer, P2P stores) plus gated sends into the sync loop's input channels; plain memory accesses between two gates are atomic, so DATA RACES ARE NOT DECIDED by this enumeration; as a supplement outside the enumeration the same ten loops (plus concurrent read accessors) run free (no scheduler, no lock shim) under the Go race detector for a grid of configurations x stop instants (coverage.race_supplement; sampling of interleavings) and every report that involves repository code is reported as clause data-race",
 		"the worker fan-out/join of FullNode.Run (node/full.go) is not executed here (libp2p goroutines cannot run in a bubble); it is modelled: the ten loops are started as Run starts them, the error channel has the capacity read from node/full.go, it is read once (first fatal error => cancel) and never after the cancel, and the join is 'every loop has returned'; a source whose join has another shape is a machinery error",
-		"executor doubles either ignore the context or (configuration) fail calls made with a cancelled context, as a remote execution client does",
+		"executor doubles either ignore the context or (configuration) behave like a remote execution client: calls made with a cancelled context fail, and from the stop request on a call whose context is still live gets no answer until that context ends",
 		"a stop is explored at every 100 ms boundary (combined with the other deviations) and, on otherwise default executions, at every scheduling point in the middle of the activities (then only the stop behaviour is judged); 'promptly' = within one block interval of virtual time",
 		"locks of package block are visible to the scheduler (overlay copy with a lock shim): a thread waiting for a held lock is parked, a thread that can never get its lock is reported as a deadlock",
 		"one DA submission may be answered 'timed out' or with a generic error (the retry back-off is then pending when a stop arrives)",
